@@ -304,7 +304,7 @@ Definition Qf (u0 : Z) (st : net) : Prop :=
   u0 < rcv_off (net_get st y) \/ u0 < una_off (net_get st x).
 
 Definition Jbase (u0 dk : Z) (fa : fair_aux) (st : net) : Prop :=
-  NI st /\ opts_ok st /\ dl_sync fa st /\ net_now st y - net_now st x = dk /\
+  NI st /\ opts_ok st /\ dl_sync Da fa st /\ net_now st y - net_now st x = dk /\
   una_off (net_get st x) = u0 /\ rcv_off (net_get st y) = u0 /\ 0 < txl st.
 
 (* what the step did to the sender *)
@@ -523,7 +523,7 @@ Qed.
    in-sequence segment. *)
 Theorem retransmission_eventually_delivered : forall evs fa st st' u0,
   0 <= Dt ->
-  NI st -> opts_ok st -> dl_sync fa st ->
+  NI st -> opts_ok st -> dl_sync Da fa st ->
   run_all oneway_safe st evs -> fair_run Dt Da fa st evs -> net_run st evs = Ok st' ->
   0 < txl st -> una_off (net_get st x) = u0 -> rcv_off (net_get st y) = u0 ->
   net_now st x + max_rto_us + Dt < net_now st' x ->
